@@ -37,6 +37,7 @@ type resumeSpec struct {
 	Kind    string       `json:"kind"` // msg | timeout | expiration  (+same: refreshed contact = the session contact)
 	Refresh *contactSpec `json:"refresh,omitempty"`
 	Tweak   string       `json:"tweak,omitempty"` // refreshed contact = the session contact with this one member changed
+	At      string       `json:"at,omitempty"`    // when the resume happens (RFC3339); default: start + (i+1) hours
 }
 
 type sprintInput struct {
@@ -45,6 +46,8 @@ type sprintInput struct {
 	Nodes    []nodeSpec   `json:"nodes"`
 	Trigger  string       `json:"trigger"` // manual | msg
 	Resumes  []resumeSpec `json:"resumes"`
+	// the scenario is outside what the one-environment step model can represent (known finding F6d): oracles only
+	OracleOnly bool `json:"oracle_only,omitempty"`
 }
 
 var dtProbeEnv = envs.NewBuilder().WithDateFormat(envs.DateFormatYearMonthDay).Build()
@@ -404,7 +407,13 @@ func runSprintCase(res *hx.Result, in *sprintInput, sh *sharder) error {
 		if session.Status() != flows.SessionStatusWaiting {
 			break
 		}
-		dates.SetNowFunc(dates.NewFixedNow(sprintBase.Add(time.Duration(i+1) * time.Hour)))
+		now := sprintBase.Add(time.Duration(i+1) * time.Hour)
+		if rs.At != "" {
+			if now, err = time.Parse(time.RFC3339Nano, rs.At); err != nil {
+				return err
+			}
+		}
+		dates.SetNowFunc(dates.NewFixedNow(now))
 		kind := strings.TrimSuffix(rs.Kind, "+same")
 		obs := &sprintObs{idx: i + 1, class: "sprint:resume-" + kind, pre: toMap(session.Contact()), preC: session.Contact().Clone(), kind: "resume"}
 		var refresh *flows.Contact
@@ -415,7 +424,7 @@ func runSprintCase(res *hx.Result, in *sprintInput, sh *sharder) error {
 			obs.refreshC, _ = u.buildContact(rs.Refresh)
 			obs.class += "+refreshed-contact"
 		} else if rs.Tweak != "" {
-			js := tweakContact(u, toMap(session.Contact()), rs.Tweak, sprintBase.Add(time.Duration(i+1)*time.Hour))
+			js := tweakContact(u, toMap(session.Contact()), rs.Tweak, now)
 			refresh, obs.refreshC = contactFromJSON(u, js), contactFromJSON(u, js)
 			obs.class += "+contact-differing-in:" + rs.Tweak
 		} else if strings.HasSuffix(rs.Kind, "+same") {
@@ -559,8 +568,30 @@ func finishSprint(res *hx.Result, u *universe, in *sprintInput, obs *sprintObs, 
 		res.OracleChecks += 3
 		// "Whenever the engine hands back a session ... the contact belongs to a query-based group exactly when it is
 		//  active and the group's query matches"
-		if errs := u.membershipErrors(session.Contact()); len(errs) > 0 {
-			res.Fail(obs.class+":membership-differs-from-query", in, fmt.Sprintf("after %s: %v", where, errs))
+		// The engine evaluates queries in two environments: the session's at start/resume (ensureQueryBasedGroups) and
+		// the contact-merged one (contact's time zone) inside modifiers.Apply.  Where both give the same answer that
+		// answer is "the query matches"; where they differ (a date condition on a day boundary between the two zones)
+		// membership necessarily contradicts one of them: known finding F6d, its own class.
+		errsS := u.membershipErrorsEnv(session.Contact(), session.Environment())
+		errsM := u.membershipErrorsEnv(session.Contact(), session.MergedEnvironment())
+		var both, either []string
+		for _, e := range errsS {
+			if containsStr(errsM, e) {
+				both = append(both, e)
+			} else {
+				either = append(either, "session environment: "+e)
+			}
+		}
+		for _, e := range errsM {
+			if !containsStr(errsS, e) {
+				either = append(either, "contact-merged environment: "+e)
+			}
+		}
+		if len(both) > 0 {
+			res.Fail(obs.class+":membership-differs-from-query", in, fmt.Sprintf("after %s: %v", where, both))
+		}
+		if len(either) > 0 {
+			res.Fail("sprint:date-condition:session-vs-contact-timezone", in, fmt.Sprintf("after %s the two environments the engine evaluates queries in disagree, membership follows the one that ran last: %v", where, either))
 		}
 		// "a contact that becomes non-active also leaves all its static groups": the sprint itself changed the status
 		becameInactive := false
@@ -588,6 +619,12 @@ func finishSprint(res *hx.Result, u *universe, in *sprintInput, obs *sprintObs, 
 		if got := replayAll(obs.pre, eventsJS, inputTime); !sameContact(got, post) {
 			res.Fail(obs.class+":replay-differs", in, fmt.Sprintf("%s: replaying %d event(s) over %s gives %s, the session contact is %s", where, len(eventsJS), brief(obs.pre), brief(got), brief(post)))
 		}
+	}
+
+	res.Dist(obs.class)
+	if in.OracleOnly {
+		res.Eval(fmt.Sprintf("oracle-only:%p:%d", in, obs.idx), true)
+		return
 	}
 
 	// ---- correspondence case
@@ -634,7 +671,6 @@ func finishSprint(res *hx.Result, u *universe, in *sprintInput, obs *sprintObs, 
 	impl := map[string]any{"call": obs.idx, "events": eventsJS, "contact": post, "modifiers_applied": len(sprint.Modifiers())}
 	sh.add(coq, map[string]any{"sprint_input": in, "call": obs.idx}, impl)
 
-	res.Dist(obs.class)
 	if len(sprint.Modifiers()) != len(obs.acts) {
 		res.Dist("sprint:modifier-count-differs-from-flow-definition")
 	}
@@ -669,7 +705,14 @@ func sprintCorpus() []*sprintInput {
 	seenAt := func(t string) *contactSpec {
 		return &contactSpec{Name: "Jim", Lang: "eng", Status: "active", LastSeen: t, Groups: []int{0, 1}, Fields: map[string]string{}}
 	}
+	// F6d (known finding): session environment UTC, contact in Africa/Kigali, message at 23:30 UTC = 01:30 next day there
+	tzUni := &uniSpec{MaxChars: 640, UseLoc: true, Groups: []groupSpec{{Name: "S0"}, {Name: "Seen on May 6", Query: `last_seen_on = "2024-05-06"`}}}
+	kigali := func() *contactSpec {
+		return &contactSpec{Name: "Jim", Lang: "eng", Status: "active", TZ: "Africa/Kigali", Groups: []int{0}, Fields: map[string]string{}}
+	}
 	return []*sprintInput{
+		{Universe: tzUni, Contact: kigali(), Trigger: "manual", Nodes: []nodeSpec{{Wait: "msg"}, {}}, Resumes: []resumeSpec{{Kind: "msg", At: "2024-05-06T23:30:00Z"}}, OracleOnly: true},
+		{Universe: tzUni, Contact: kigali(), Trigger: "manual", Nodes: []nodeSpec{{Wait: "msg"}, {Actions: []*modSpec{{Kind: "name", Text: "Bob"}}}}, Resumes: []resumeSpec{{Kind: "msg", At: "2024-05-06T23:30:00Z"}}, OracleOnly: true},
 		// the received message is not later than the contact's last seen (12:00:00 vs 08:00:00 / 09:00:00; equal; 30 s
 		// later): msg_received still replays to the message's time, so the contact must carry exactly that time
 		{Universe: seenUni, Contact: seenAt("2024-05-06T12:00:00Z"), Trigger: "msg", Nodes: []nodeSpec{{}, {Wait: "msg"}, {}}, Resumes: []resumeSpec{{Kind: "msg"}}},
